@@ -1111,8 +1111,12 @@ func TestGSXRealise(t *testing.T) {
 			}()
 			ctx.SetFileInfo(filepath.Base(file), f)
 			before := gsxFingerprint(fset, f)
+			ctxBefore := fmt.Sprintf("%#v", *ctx)
 			ws := c.Check(f)
 			after := gsxFingerprint(fset, f)
+			if ctxAfter := fmt.Sprintf("%#v", *ctx); ctxAfter != ctxBefore {
+				fmt.Printf("GSX-REAL\t%s\tCTX\t%q\n", file, "the shared linter.Context differs after Check: "+gsxDiff(ctxBefore, ctxAfter))
+			}
 			type w struct {
 				Pos, Text string
 				Valid     bool
@@ -1132,6 +1136,24 @@ func TestGSXRealise(t *testing.T) {
 			fmt.Printf("GSX-REAL\t%s\tOK\t%d\tmutated=%v\t%s\n", file, len(ws), before != after, js)
 		}()
 	}
+}
+
+func gsxDiff(a, b string) string {
+	i := 0
+	for i < len(a) && i < len(b) && a[i] == b[i] {
+		i++
+	}
+	lo := i - 40
+	if lo < 0 {
+		lo = 0
+	}
+	hi := func(s string) int {
+		if i+60 < len(s) {
+			return i + 60
+		}
+		return len(s)
+	}
+	return "..." + a[lo:hi(a)] + "  =>  ..." + b[lo:hi(b)]
 }
 
 // gsxFingerprint renders the tree structurally (node kinds, tokens, names, positions).
@@ -1175,6 +1197,8 @@ type realResult struct {
 	Warnings int
 	Mutated  bool
 	JSON     string
+	// CtxChanged: how the shared linter.Context differed after Check ("" = unchanged)
+	CtxChanged string
 }
 
 // runRealised runs the real checker natively on each source; returns per-source results.
@@ -1211,6 +1235,7 @@ func runRealisedFiles(checker string, params map[string]interface{}, mode string
 	cmd.Stderr = &out
 	runErr := cmd.Run()
 	var res []realResult
+	pendingCtx := map[string]string{}
 	for _, line := range strings.Split(out.String(), "\n") {
 		if !strings.HasPrefix(line, "GSX-REAL\t") {
 			continue
@@ -1221,6 +1246,12 @@ func runRealisedFiles(checker string, params map[string]interface{}, mode string
 		}
 		r := realResult{File: p[1], Status: p[2]}
 		switch p[2] {
+		case "CTX":
+			// an extra line for a file whose OK line follows: remember it on the next result
+			if len(p) > 3 {
+				pendingCtx[p[1]] = p[3]
+			}
+			continue
 		case "PANIC", "SKIP", "DIFF", "SAME":
 			if len(p) > 3 {
 				r.Detail = p[3]
@@ -1231,6 +1262,9 @@ func runRealisedFiles(checker string, params map[string]interface{}, mode string
 				r.Mutated = p[4] == "mutated=true"
 				r.JSON = p[5]
 			}
+		}
+		if d, ok := pendingCtx[r.File]; ok {
+			r.CtxChanged = d
 		}
 		res = append(res, r)
 	}
